@@ -54,6 +54,9 @@ open SoupVerif
 #print axioms C17.any_takeWhile_of_last
 #print axioms C17.inFormRel_of_matchDefault
 #print axioms C17.default_def_wellformed
+#print axioms C17.scan_aux
+#print axioms C17.firstSubmit_cons
+#print axioms C17.scanIsSubmit_eq_typeIs
 #print axioms C17.indeterminate_def
 #print axioms C17.matchIndeterminate_def
 #print axioms C17.disabledParent_eq
@@ -77,6 +80,9 @@ open SoupVerif
 #print axioms C17.dir_partition
 #print axioms C17.dir_explicit
 #print axioms C17.dir_neither
+#print axioms C17.dir_neither_foreign
+#print axioms C17.ancestorsAux_elem
+#print axioms C17.ancestors_elem
 #print axioms C17.dirList_parser
 #print axioms C17.htmlOnly_firstStrong
 #print axioms C17.htmlOnly_findBidiKids
@@ -184,6 +190,8 @@ open SoupVerif
 #print axioms StateLaws.levelG_eq_interp
 #print axioms StateLaws.matchDirWalk_cons
 #print axioms StateLaws.matchDirWalk_nil
+#print axioms StateLaws.matchDirWalk_html_head
+#print axioms StateLaws.matchDirWalk_foreign_subject
 #print axioms StateLaws.step_val
 #print axioms StateLaws.dirStep_val
 #print axioms StateLaws.step_root
@@ -255,17 +263,28 @@ def runF (s : SelList) : List (List Nat) := (select E0 false [] s fragTop 0).map
 example : runF (dirList SEL_DIR_LTR) = [[0]] := by decide +kernel
 example : runF (dirList SEL_DIR_RTL) = [] := by decide +kernel
 
-/-- An HTML element below a non-HTML-namespace ancestor (`svg > foreignObject > p`, html5lib):
-    neither direction. -/
+/-- An HTML element below non-HTML-namespace ancestors (`svg > foreignObject > p`, html5lib).
+    Before the repair of `match_dir` (`inherit`) it matched neither direction; now the foreign
+    ancestors are skipped and it inherits `ltr` from the root, while `svg` / `foreignObject`
+    themselves match neither (`dir_neither_foreign`). -/
 def xh : Option Str := some NS_XHTML
 def svgNs : Option Str := some "http://www.w3.org/2000/svg".toStr
 def elNs (ns : Option Str) (n : String) (kids : List Node) : Node :=
   .elem { isDoc := false, name := n.toStr, pfx := none, ns := ns, attrs := [] } kids
 def svgDoc : Node := docN [elNs xh "html" [elNs xh "body" [elNs svgNs "svg" [elNs svgNs "foreignObject" [elNs xh "p" []]], elNs xh "p" []]]]
-def runS (s : SelList) : List (List Nat) := (select E0 false [] s ⟨svgDoc, []⟩ 0).map Loc.pos
--- DEVIATION (real soupsieve, html5lib: ltr = html, head, body, second p; rtl = none)
-example : runS (dirList SEL_DIR_LTR) = [[0],[0,0],[0,0,1]] := by decide +kernel
+def svgTop : Loc := ⟨svgDoc, []⟩
+def ctxS : Ctx := mkCtx E0 false [] svgTop
+def runS (s : SelList) : List (List Nat) := (select E0 false [] s svgTop 0).map Loc.pos
+-- (real soupsieve after the repair, html5lib: ltr = html, head, body, p#x, p#y; rtl = none)
+example : runS (dirList SEL_DIR_LTR) = [[0],[0,0],[0,0,0,0,0],[0,0,1]] := by decide +kernel
 example : runS (dirList SEL_DIR_RTL) = [] := by decide +kernel
+-- the hypotheses of `dir_partition` at `p` inside `foreignObject`: the subject is an HTML element,
+-- its chain is p, foreignObject (foreign), svg (foreign), body, html (root), document
+example : ((Doc.mk false svgDoc).locAt? [0,0,0,0,0]).map (fun l =>
+      (l :: ctxS.ancestors l true).map fun p =>
+        (p.elem?.map (ctxS.isHtmlTag ·), ctxS.isRoot p)) =
+    some [(some true, false), (some false, false), (some false, false), (some true, false),
+          (some true, true), (some false, false)] := by decide +kernel
 -- … and such elements are neither `:read-write` nor `:read-only` (`readwrite_or_readonly_iff`)
 example : runS Gen.CSS_READ_ONLY = [[0],[0,0],[0,0,0,0,0],[0,0,1]] := by decide +kernel
 example : runS Gen.CSS_READ_WRITE = [] := by decide +kernel
@@ -307,9 +326,13 @@ example : rangeState ctx weekTyped = some false := by decide +kernel
 example : matchList ctx top (inputE [sAttr "type" "hidden", sAttr "required" ""]) Gen.CSS_REQUIRED = true := by
   decide +kernel
 
-/-! ### XHTML parsed as XML: `[type=…]` is exact, `match_default`'s own scan is not -/
+/-! ### XHTML parsed as XML: `[type=…]` is exact, and (after the repair) so is `match_default`'s own
+    scan (`scanIsSubmit_eq_typeIs`) -/
 def ctxX : Ctx := { ctx with isXml := true, hasHtmlNs := true }
 example : typeIs ctxX (inputE [sAttr "type" "SUBMIT"]) "submit" = false := by decide +kernel
 example : typeIs ctx (inputE [sAttr "type" "SUBMIT"]) "submit" = true := by decide +kernel
+example : scanIsSubmit ctxX (inputE [sAttr "type" "SUBMIT"]) = false := by decide +kernel
+example : scanIsSubmit ctx (inputE [sAttr "type" "SUBMIT"]) = true := by decide +kernel
+example : scanIsSubmit ctxX (inputE [sAttr "type" "submit"]) = true := by decide +kernel
 
 end SoupVerif.AuditC17
